@@ -47,6 +47,15 @@ def probes(ctx):
 def generate(ctx):
     rng = ctx.rng
     for _ in range(ctx.n(1600, 26000)):
+        if rng.random() < 0.05:
+            # a typed date level at the innermost depth: per-depth selectors there may be coarser-unit dates (a month selects its days)
+            outers = rng.sample(['a', 'b', 'c', 'd'], rng.randint(2, 3))
+            start = np.datetime64(rng.choice(['2020-01-29', '2020-02-27', '2019-12-30']))
+            days = [start + np.timedelta64(i, 'D') for i in range(rng.randint(3, 6))]
+            per_outer = {o: (days if rng.random() < 0.6 else days[rng.randint(0, 1):rng.randint(3, len(days))]) for o in outers}
+            yield {'route': 'date_leaf', 'depth': 2, 'outers': outers, 'days': {o: list(v) for o, v in per_outer.items()}, 'sel_seed': rng.randrange(1 << 30),
+                   'build': rng.choice(['from_product', 'from_index_items', 'from_labels_typed']) if all(v == days for v in per_outer.values()) else 'from_index_items'}
+            continue
         depth = rng.choice([2, 2, 3, 3, 4])
         n = rng.choice([1, 2, 3, 4, 6, 8, 10, 12, 16])
         labels = L.tree_labels(depth, n, rng, datetime_level=rng.random() < 0.12)
@@ -302,6 +311,27 @@ def build(case, ctx, klass):
                     model[-1] in ih
                 elif what == 'copy':
                     ih.copy()
+            if model and op != 'read' and si % 3 == 2 and not any(isinstance(x, np.datetime64) for t in model for x in t):
+                # the first thing asked of the grown hierarchy is a per-depth selection with an open-ended slice at the innermost
+                # depth under the parents of the label just added (nothing has re-read the index since the growth)
+                last = tuple(model[-1])
+                first_inner = next(t[-1] for t in model if tuple(t[:-1]) == last[:-1])
+                for inner in (('slice', first_inner, None), ('slice', None, last[-1])):
+                    key = tuple(('label', x) for x in last[:-1]) + (inner,)
+                    exp = hloc_positions(model, key)
+                    ctx.tally('hloc_right_after_growth', 'judged' if exp else 'not_judged')
+                    if not exp:
+                        continue
+                    try:
+                        got, _ = _norm_positions(ih.loc_to_iloc(sf.HLoc[tuple(realize_sel(k) for k in key)]), len(model))
+                    except Exception as e:
+                        ctx.violation('hloc_raised', detail={'key': repr(key), 'exception': type(e).__name__, 'message': str(e)[:200], 'expected': exp},
+                                      klass=dict(klass, stage='right_after_growth', exception=type(e).__name__, selectors=['label', 'slice'], has_list=False, has_slice=True))
+                        return None, None
+                    if got != exp:
+                        ctx.violation('hloc_positions', detail={'key': repr(key), 'expected': exp, 'got': got, 'model': repr(model)[:600]},
+                                      klass=dict(klass, stage='right_after_growth', selectors=['label', 'slice'], has_list=False, has_slice=True))
+                        return None, None
             if model and (op == 'read' and si % 3 == 0 or op != 'read' and si % 3 != 1):
                 if not agreement(ctx, ih, model, dict(klass, stage=f'grow_step:{op}')):
                     return None, None
@@ -420,9 +450,56 @@ def _loose_el(g, e):
     return False
 
 
+def _check_date_leaf(case, ctx):
+    import random
+    import static_frame as sf
+    rng = random.Random(case['sel_seed'])
+    outers, days = case['outers'], case['days']
+    model = [(o, d) for o in outers for d in days[o]]
+    n = len(model)
+    klass = {'route': 'date_leaf', 'depth': 2, 'build': case['build']}
+    ctx.tally('route', 'date_leaf')
+    if case['build'] == 'from_product':
+        ih = sf.IndexHierarchy.from_product(outers, sf.IndexDate(days[outers[0]]))
+    elif case['build'] == 'from_labels_typed':
+        ih = sf.IndexHierarchy.from_labels(model, index_constructors=(sf.Index, sf.IndexDate))
+    else:
+        ih = sf.IndexHierarchy.from_index_items((o, sf.IndexDate(days[o])) for o in outers)
+    ctx.evaluation(('date_leaf', repr(case)), True)
+    if not agreement(ctx, ih, model, dict(klass, stage='built')):
+        return
+    months = sorted({str(d)[:7] for o in outers for d in days[o]})
+    absent = '2018-03'
+    s = sf.Series(np.arange(n), index=ih)
+    for outer in outers + [None]:
+        for inner in ([m] for m in months), ([months[0], months[-1]],), ([absent, months[-1]],), (months[-1],), ([str(days[outers[0]][0])],):
+            for sel in inner:
+                in_sel = (lambda d, sel=sel: any(str(d).startswith(x) for x in (sel if isinstance(sel, list) else [sel])))
+                exp = [i for i, (o, d) in enumerate(model) if (outer is None or o == outer) and in_sel(d)]
+                if not exp:
+                    continue
+                key = sf.HLoc[(slice(None) if outer is None else outer), sel]
+                k2 = dict(klass, selectors=['all' if outer is None else 'label', 'partial_date_list' if isinstance(sel, list) else 'partial_date'],
+                          has_list=isinstance(sel, list), has_slice=False)
+                ctx.evaluation(('date_leaf_sel', repr(model), repr(outer), repr(sel)), True)
+                try:
+                    got, _ = _norm_positions(ih.loc_to_iloc(key), n)
+                    vals = s.loc[key]
+                    got_vals = [int(vals)] if isinstance(vals, (int, np.integer)) else [int(v) for v in vals.values]
+                except Exception as e:
+                    ctx.violation('hloc_raised', detail={'key': repr((outer, sel)), 'exception': type(e).__name__, 'message': str(e)[:200], 'expected': exp},
+                                  klass=dict(k2, exception=type(e).__name__))
+                    return
+                if got != exp or got_vals != exp:
+                    ctx.violation('hloc_positions', detail={'key': repr((outer, sel)), 'expected': exp, 'got': got, 'series_values': got_vals, 'model': repr(model)[:500]}, klass=k2)
+                    return
+
+
 def check(case, ctx):
     import random
     import static_frame as sf
+    if case['route'] == 'date_leaf':
+        return _check_date_leaf(case, ctx)
     klass = {'route': case['route'], 'depth': case['depth']}
     ctx.tally('route', case['route'])
     ctx.tally('depth', case['depth'])
@@ -434,6 +511,23 @@ def check(case, ctx):
     if not model:
         return
     if not agreement(ctx, ih, model, dict(klass, stage='built')):
+        return
+    # operations that derive other containers from the hierarchy and are then thrown away: the hierarchy itself must still
+    # describe the same tuple sequence in every view (a derivation that re-bases or shares tree nodes would show here)
+    ran = []
+    for name, fn in (('level_drop_outer', lambda: ih.level_drop(1)), ('level_drop_inner', lambda: ih.level_drop(-1)), ('level_add', lambda: ih.level_add('L')),
+                     ('rename', lambda: ih.rename('r')), ('copy', lambda: ih.copy()), ('flat', lambda: ih.flat()), ('reversed', lambda: ih.iloc[::-1]),
+                     ('to_frame', lambda: ih.to_frame()), ('series_relabel_level_drop', lambda: sf.Series(np.arange(n), index=ih).relabel_level_drop(1)),
+                     ('rehierarch', lambda: ih.rehierarch(tuple(reversed(range(ih.depth)))))):
+        if case['sel_seed'] % 3 == 0 and name not in ('level_drop_outer', 'series_relabel_level_drop'):
+            continue
+        try:
+            fn()
+            ran.append(name)
+        except Exception:
+            pass
+    ctx.tally('read_only_derivations', len(ran))
+    if not agreement(ctx, ih, model, dict(klass, stage='after_read_only_derivations')):
         return
     if any(isinstance(x, np.datetime64) for t in model for x in t):
         ctx.tally('selector_enumeration', 'skipped_datetime_level')
